@@ -80,6 +80,21 @@ class Session:
                     self.p.dataReceived(pc)
         self.ev.append({"op": "reply", "tid": tid, "uid": uid, "fired": self._guard(go), "pieces": [len(x) for x in pieces]})
 
+    def replies_coalesced(self, items):
+        """several replies arrive in one read (items = [(tid, uid)])"""
+        kind = "tcp" if self.variant == "dict" else "rtu"
+        blob = b"".join(pyframe(kind, t, 0, u, bytes([3, 2, 0x12, 0x34])) for t, u in items)
+        fired = self._guard(lambda: self.p.dataReceived(blob))
+        # recorded as one reply event per frame; everything that fired is attributed to the events in order
+        rest = list(fired)
+        for n, (t, u) in enumerate(items):
+            mine = [f for f in rest if f[1] == (t if self.variant == "dict" else u)][:1]
+            for f in mine:
+                rest.remove(f)
+            if n == len(items) - 1:
+                mine = mine + rest
+            self.ev.append({"op": "reply", "tid": t, "uid": u, "fired": mine, "pieces": [-len(items)]})
+
     def lost(self):
         self.ev.append({"op": "lost", "fired": self._guard(lambda: self.p.connectionLost(Failure(ConnectionDone())))})
 
@@ -105,6 +120,10 @@ def history(tid, variant, rng, tier):
             issued += 1
             if not lost and t != -1:
                 out[d] = (t, uid)
+        elif c < 0.55 and len(out) >= 2 and not lost:
+            ds = sorted(out) if variant == "fifo" else rng.sample(sorted(out), rng.randint(2, min(3, len(out))))
+            ds = ds[:3]
+            s.replies_coalesced([out.pop(d) for d in ds])
         elif c < 0.75 and out and not lost:
             if variant == "dict":
                 d = rng.choice(list(out))
